@@ -32,6 +32,7 @@ from vf.vloop import VLoop  # noqa: E402
 use_repo()
 from nauyaca.protocol.response import GeminiResponse  # noqa: E402
 from nauyaca.server.handler import FileUploadHandler  # noqa: E402
+from nauyaca.server.middleware import MiddlewareChain  # noqa: E402
 from nauyaca.server.protocol import GeminiServerProtocol  # noqa: E402
 
 LIMIT = 64
@@ -142,7 +143,17 @@ def run_protocol(handler, line, content, rnd):
     loop = VLoop()
     asyncio.set_event_loop(loop)
     try:
-        proto = GeminiServerProtocol(lambda r: GeminiResponse(status=51, meta="no gemini here"), None, handler)
+        # a component in front of the upload handler that admits everything, sometimes only after more than the 30 s
+        # request timeout: the answer (and the effect) is still the upload handler's
+        delay = rnd.choice([0, 0, 0, 31, 50])
+
+        class Admit:
+            async def process_request(self, url, ip, fp=None):
+                if delay:
+                    await asyncio.sleep(delay)
+                return True, None
+        chain = MiddlewareChain([Admit()]) if rnd.random() < 0.6 else None
+        proto = GeminiServerProtocol(lambda r: GeminiResponse(status=51, meta="no gemini here"), chain, handler)
         tr = FakeTransport(loop, proto, auto_lost=True)
         loop.call(proto.connection_made, tr)
         surplus = rnd.choice([b"", b"", b"EXTRA", b"\r\n", b"X" * 100])
@@ -154,8 +165,11 @@ def run_protocol(handler, line, content, rnd):
                 break
             loop.call(tr.feed, stream[prev:c])
             prev = c
-        for _ in range(5):
+        for _ in range(8):
             loop.run_idle()
+            if not loop.advance_to_next_timer():          # also after the answer: whatever is still pending gets its chance to act
+                break
+        loop.run_idle()
         st = bytes(tr.wire[:2])
         return int(st) if st.isdigit() else 0
     finally:
@@ -187,8 +201,8 @@ def run_case(tree, case, rnd):
                 if case["fault"] == "partial":
                     signal.signal(signal.SIGXFSZ, signal.SIG_IGN)
                     k = rnd.choice([x for x in (0, 1, len(content) - 1) if 0 <= x < len(content)] or [0])
+                    handler = make_handler(case, up, rnd)          # (may write a configuration file: before the limit applies)
                     resource.setrlimit(resource.RLIMIT_FSIZE, (k, k))
-                    handler = make_handler(case, up, rnd)
                 else:
                     handler = make_handler(case, up, rnd)
                     os.setgid(65534)
@@ -197,7 +211,8 @@ def run_case(tree, case, rnd):
                 os.write(w, b"%d" % st)
             except BaseException as e:  # noqa: BLE001
                 try:
-                    os.write(w, b"0 " + repr(e).encode()[:200])
+                    import traceback
+                    os.write(w, b"0 " + repr(e).encode()[:200] + traceback.format_exc().encode()[-600:])
                 except Exception:
                     pass
             finally:
@@ -212,6 +227,8 @@ def run_case(tree, case, rnd):
         os.close(r)
         os.waitpid(pid, 0)
         st = int(data.split()[0]) if data.split() and data.split()[0].isdigit() else 0
+        if st == 0 and os.environ.get("VF_DEBUG"):
+            print("child said:", data[:300])
     after = snapshot(tree.top)
     return st, before, after, content
 
